@@ -47,7 +47,7 @@ type params struct {
 }
 
 func Run(k *report.Check) {
-	k.Rule = "cluster simulation (real Job, operators, source runners; one storage namespace for job files and DKV files): W in {1,2} workers process two splits of 8+3 records; a savepoint is requested when s event batches have been delivered (s in {0,1,2,4,7}), with the periodic checkpoint tick before it, racing with it (tick first, savepoint while the checkpoint is pending) or absent; operator acknowledgements in either order; RPCs are delivered oldest first plus at most `bound` out-of-order deliveries. Then every file outside the savepoints directory (all DKV files, all job checkpoints) is deleted and a new job is started from the savepoint URI with W' in {1,2} fresh workers. Oracle: the savepoint folds into a pending checkpoint (no second StartCheckpoint round, one id), the original job still finishes with the failure-free state, the restored job's handlers never see a record twice nor miss an earlier one, its final state read back from its DKV checkpoints equals the failure-free fold, and its source positions equal the savepoint's. A second part runs with memtables of a few entries (the savepoints then consist of table files) and lets the restored job take a savepoint of its own, from which a third job with W'' workers is started after another wipe. non-trivial = distinct (W, W', request point, tick relation, ack order) runs in which the restored job re-read input past the savepoint and was handed non-empty state"
+	k.Rule = "cluster simulation (real Job, operators, source runners; one storage namespace for job files and DKV files): W in {1,2} workers process two splits of 8+3 records; a savepoint is requested when s event batches have been delivered (s in {0,1,2,4,7}), with the periodic checkpoint tick before it, racing with it (tick first, savepoint while the checkpoint is pending: before any, after the first, or after all but one of its acknowledgements) or absent; operator acknowledgements in either order; RPCs are delivered oldest first plus at most `bound` out-of-order deliveries. Then every file outside the savepoints directory (all DKV files, all job checkpoints) is deleted and a new job is started from the savepoint URI with W' in {1,2} fresh workers. Oracle: the savepoint folds into a pending checkpoint (no second StartCheckpoint round, one id), the original job still finishes with the failure-free state, the restored job's handlers never see a record twice nor miss an earlier one, its final state read back from its DKV checkpoints equals the failure-free fold, and its source positions equal the savepoint's. A second part runs with memtables of a few entries (the savepoints then consist of table files) and lets the restored job take a savepoint of its own, from which a third job with W'' workers is started after another wipe. non-trivial = distinct (W, W', request point, tick relation, ack order) runs in which the restored job re-read input past the savepoint and was handed non-empty state"
 	k.Assumptions = []string{"in-memory storage namespace standing for a shared directory / bucket", "interleavings inside components are the component checks' subject"}
 	k.Budget(120, 1200)
 	k.Parts(2)
@@ -137,7 +137,7 @@ func body(c *mc.Ctx) {
 		early = c.Choose(2) == 1
 	} else {
 		reqAt = []int{0, 1, 2, 4, 7}[c.Choose(5)]
-		tickMode = c.Choose(3)
+		tickMode = c.Choose(5)
 	}
 	_ = tickMode // 0: no periodic tick before; 1: tick completes first (tick when reqAt-1 batches); 2: tick right before the request (savepoint folds into the pending checkpoint)
 	reverseAcks := w1 > 1 && c.Choose(2) == 1
@@ -146,7 +146,7 @@ func body(c *mc.Ctx) {
 		c.Op("[chain: workers %d -> %d -> %d, memtable %d bytes, level-0 trigger %d, second savepoint %s]", w1, w2, w3, shim.TuneValue("MemTableSize"), shim.TuneValue("L0Trigger"), map[bool]string{true: "as soon as the restored job runs", false: "when the restored job has consumed its input"}[early])
 	}
 	c.Op("[workers %d -> %d; savepoint requested after %d event batches; periodic tick: %s; operator acks %s]", w1, w2, reqAt,
-		[]string{"none", "one batch earlier", "immediately before the request"}[tickMode], map[bool]string{true: "newest first", false: "in order"}[reverseAcks])
+		[]string{"none", "one batch earlier", "immediately before the request", "before the request, which follows the checkpoint's first acknowledgement", "before the request, which follows all but one of the checkpoint's acknowledgements"}[tickMode], map[bool]string{true: "newest first", false: "in order"}[reverseAcks])
 	var cl *cluster.Cluster
 	var note, chainNote string
 	var spID uint64
@@ -160,6 +160,7 @@ func body(c *mc.Ctx) {
 			cl.AddWorker()
 		}
 		requested, ticked := false, false
+		acksAtTick := 0
 		callsBefore := 0
 		extra := func(pend []string) bool {
 			if !cl.Clock.Active("checkpointing") {
@@ -172,15 +173,20 @@ func body(c *mc.Ctx) {
 				return true
 			}
 			if !requested && cl.EventBatches >= reqAt {
-				if tickMode == 2 && !ticked {
+				if tickMode >= 2 && !ticked {
 					ticked = true
 					callsBefore = len(cl.Calls)
+					acksAtTick = cl.AcksDelivered
 					c.Op("tick")
 					shim.Go(func() { cl.Clock.Tick("checkpointing") })
 					return true
 				}
+				// the request lands in the middle of the checkpoint's acknowledgements
+				if need := map[int]int{3: 1, 4: 2*w1 - 1}[tickMode]; cl.AcksDelivered-acksAtTick < need {
+					return false
+				}
 				requested = true
-				if tickMode != 2 {
+				if tickMode < 2 {
 					callsBefore = len(cl.Calls)
 				}
 				c.Op("CreateSavepoint")
